@@ -336,6 +336,29 @@ def write_replay(v, job):
 def replay(pid, path):
     build()
     rj = json.load(open(path))
+    if not (isinstance(rj, dict) and "prog" in rj):
+        # not an execution of the harness (a TLC counterexample of a weak-memory model, a law / trait / serde / cache-view row):
+        # re-run the property's own stages from scratch on the current tree and report what is found again
+        import sys
+        stages = props.EXTRA.get(pid, [])
+        stages = stages if isinstance(stages, list) else [stages]
+        key = "replay%d" % os.getpid()
+        found = []
+        try:
+            for st in stages:
+                r = st("quick", int(os.environ.get("VERIF_SEED", "0")), key, sys.modules[__name__])
+                found += [v for v in r["viols"] if pid in v["prop"].split("+")]
+        finally:
+            for d in os.listdir(CACHE):
+                if d.startswith(key):
+                    shutil.rmtree(os.path.join(CACHE, d), ignore_errors=True)
+        for v in found[:5]:
+            print("re-checked: property=%s %s" % (v["prop"], v["why"][:200]))
+        if found:
+            print("VIOLATION property=%s replay=%s" % (pid, path))
+            return 1
+        print("replay: property %s holds (the stage that produced %s finds nothing on the current tree)" % (pid, os.path.basename(path)))
+        return 0
     wd = os.path.join(CACHE, "replay_%d" % os.getpid())
     try:
         specs = ("Trace_Abs", "Trace_Mem") if os.path.exists(os.path.join(SPEC, "Trace_Mem.tla")) else ("Trace_Abs",)
